@@ -10,7 +10,8 @@ Requests (same file as for harness/c09_patterns.cpp; the hex fields are for the 
   pat <hex pattern> <alt> ('|' <alt>)*
       alt  = ("abs" | "rel") <step>*          step = <sep>:<axis>:<test>:<preds>
       sep  = c | d      axis = c | a      test = n.<name> | any | text | comment | pi | pl.<name> | node
-      preds = "-" | comma separated:  i<k> | last | pe<k> | pnl | a.<x> | c.<x> | na.<x>
+      preds = "-" | comma separated:  i<k> | last | pe<k> | pnl | le<k> | lg<k> | pll | lm1 | a.<x> | c.<x> | na.<x>
+  fpat <hex pattern> <hex4 units of the id()/key() call text> <node-set "3,7"|"-"> <step>*   (id()/key()-leading pattern)
       reply  "pat <rendered pattern> codes=<alt;alt> m=<score per node> s=<0/1 per node>"
         codes: compilePath;  m: getMatchScore (model of XPath::getMatchScore);  s: Spec.matchesPattern
 -/
@@ -61,12 +62,16 @@ def parseTest (s : String) : Option Test :=
 def parsePred (s : String) : Option Pred :=
   if s = "last" then some .last
   else if s = "pnl" then some .posNeLast
+  else if s = "pll" then some .posLtLast
+  else if s = "lm1" then some .lastMinus1
   else match s.splitOn "." with
     | ["a", x] => some (.attr x)
     | ["c", x] => some (.child x)
     | ["na", x] => some (.notAttr x)
     | [w] =>
       if w.startsWith "pe" then (w.drop 2).toString.toNat?.map Pred.posEq
+      else if w.startsWith "le" then (w.drop 2).toString.toNat?.map Pred.lastEq
+      else if w.startsWith "lg" then (w.drop 2).toString.toNat?.map Pred.lastGt
       else if w.startsWith "i" then (w.drop 1).toString.toNat?.map Pred.idx
       else none
     | _ => none
@@ -116,13 +121,31 @@ def step (s : St) : List String → St × String
     | some d, some P =>
       if P.all Path.valid ∧ !P.isEmpty then
         let idx := List.range d.size
-        let codes := ";".intercalate (P.map fun p => String.ofList ((compilePath p).map (·.code.char)))
+        let codes := ";".intercalate (P.map fun p => String.join ((compilePath p).map fun c =>
+          String.ofList (c.code.char :: c.preds.map fun q => if q.usesPos then '+' else '-')))
         let m := String.join (idx.map fun i => toString (getMatchScore s.v d P i).toNat)
         let sp := String.join (idx.map fun i => if Spec.matchesPattern d P i then "1" else "0")
-        (s, s!"pat {Pattern.render P} codes={codes} m={m} s={sp}")
+        let amb := String.join (idx.map fun _ => "0")
+        (s, s!"pat {Pattern.render P} codes={codes} amb={amb} m={m} s={sp}")
       else (s, "pat ERR:invalid")
     | none, _ => (s, "pat ERR:nodoc")
     | _, none => (s, "pat ERR:parse")
+  | "fpat" :: _hex :: txtHex :: set :: steps =>
+    -- id()/key()-leading pattern: <hex of the call text> <node-set "3,7" or "-"> <step>*
+    match s.doc, steps.mapM parseStep, Driver.unitsOfHex txtHex,
+          (if set = "-" then some [] else (set.splitOn ",").mapM String.toNat?) with
+    | some d, some st, some units, some S =>
+      let p : FnPath := { txt := String.ofList (units.map Char.ofNat), S := S, steps := st }
+      let idx := List.range d.size
+      let codes := String.join ((compileFn p).map fun c =>
+        (match c.code with | .fn true => "FG" | _ => String.ofList [c.code.char]) ++
+          String.ofList (c.preds.map fun q => if q.usesPos then '+' else '-'))
+      let m := String.join (idx.map fun i => toString (getMatchScoreFn s.v d p i).toNat)
+      let sp := String.join (idx.map fun i => if Spec.matchesFn d p i then "1" else "0")
+      let amb := String.join (idx.map fun _ => "0")
+      (s, s!"pat {p.render} codes={codes} amb={amb} m={m} s={sp}")
+    | none, _, _, _ => (s, "pat ERR:nodoc")
+    | _, _, _, _ => (s, "pat ERR:parse")
   | _ => (s, "bad")
 
 end Driver.C09
